@@ -39,6 +39,18 @@ func (i *interpreter) osFileType() types.Type {
 	return types.NewPointer(i.prog.ImportedPackage("os").Type("File").Type())
 }
 
+// truncateOpen: the file is truncated to nothing; descriptors already open for reading
+// on it find no more data.
+func (m *osModel) truncateOpen(name string) {
+	for _, f := range m.byPtr {
+		if f.name == name && (f.stream != nil || f.text != nil) {
+			f.stream = nil
+			f.text = ""
+			f.off = 0
+		}
+	}
+}
+
 func (m *osModel) newFile(name string) *osFile {
 	cell := value(structure{(*value)(nil)})
 	f := &osFile{name: name, ptr: &cell}
@@ -328,9 +340,18 @@ func init() {
 	reg("os.Open", func(fr *frame, args []value) value {
 		m := fr.osm()
 		name := keyString(args[0])
-		if d, ok := m.data[name]; ok {
+		if w, ok := m.created[name]; ok {
+			// the file was created / truncated by this run: a reader sees what has been written so far
 			f := m.newFile(name)
-			f.stream = d
+			f.text = normStr(w.wbuf)
+			return tuple{f.ptr, iface{}}
+		}
+		if d, ok := m.data[name]; ok {
+			// every open starts at the beginning of the file: a copy of the stream's state
+			f := m.newFile(name)
+			st := append(structure{}, (*d).(structure)...)
+			var cell value = st
+			f.stream = &cell
 			return tuple{f.ptr, iface{}}
 		}
 		if t, ok := m.texts[name]; ok {
@@ -343,6 +364,7 @@ func init() {
 	reg("os.Create", func(fr *frame, args []value) value {
 		m := fr.osm()
 		name := keyString(args[0])
+		m.truncateOpen(name)
 		f := m.newFile(name)
 		m.created[name] = f
 		return tuple{f.ptr, iface{}}
@@ -368,6 +390,9 @@ func init() {
 			return tuple{(*value)(nil), pathError(fr, "open", name, "no such file or directory")}
 		case exists && flag&oCreate != 0 && flag&oExcl != 0:
 			return tuple{(*value)(nil), pathError(fr, "open", name, "file exists")}
+		}
+		if flag&oTrunc != 0 {
+			m.truncateOpen(name)
 		}
 		f := m.newFile(name)
 		if exists && flag&oTrunc == 0 {
